@@ -2,16 +2,17 @@ FILE = "asn1tools/codecs/ber.py"
 
 fields("asn1tools/codecs/__init__.py", "ErrorWithLocation", message=Val, location=Val)
 fields("asn1tools/codecs/__init__.py", "DecodeError", offset=Val)
-fields("MissingDataError", expected_length=Int)
+fields("MissingDataError", expected_length=Int, offset=Int)
 
 
 @contract("decode_length", props=["C15", "C04", "C16", "C08"])
-def _(encoded: Bytes, offset: Nat, enforce_definite: Bool):
+def _(encoded: Bytes, offset: Nat, enforce_definite: Bool) -> Tup(Opt(Int), Int):
     # exceptional behaviour: exactly the library's decode errors, exactly when the data is short
     raises_iff(MissingDataError,
                len_hdr_complete(encoded, offset) and not len_is_indefinite(encoded, offset)
                and offset + len_hdr_size(encoded, offset) + len_value(encoded, offset) > len(encoded),
-               ensures=[exc.expected_length == len_value(old(encoded), old(offset))])
+               ensures=[exc.expected_length == len_value(old(encoded), old(offset)),
+                        exc.offset == old(offset) + len_hdr_size(old(encoded), old(offset))])
     raises_iff(OutOfByteDataError, not len_hdr_complete(encoded, offset))
     raises_iff(DecodeError, len_hdr_complete(encoded, offset) and len_is_indefinite(encoded, offset)
                and enforce_definite)
@@ -23,7 +24,7 @@ def _(encoded: Bytes, offset: Nat, enforce_definite: Bool):
 
 
 @contract("skip_tag", props=["C15", "C04", "C16", "C08"])
-def _(data: Bytes, offset: Nat):
+def _(data: Bytes, offset: Nat) -> Int:
     raises_iff(OutOfByteDataError, not tag_complete(data, offset) or tag_end(data, offset) >= len(data))
     ensures(result == tag_end(data, offset))
     ensures(offset < result and result < len(data))
@@ -31,3 +32,79 @@ def _(data: Bytes, offset: Nat):
                        tag_cont_end(data, offset) == tag_cont_end(data, old(offset) + 1),
                        tag_cont_complete(data, offset) == tag_cont_complete(data, old(offset) + 1)],
          decreases=len(data) - offset)
+
+
+@contract("encode_signed_integer", props=["C03", "C01"])
+def _(number: Int) -> Bytes:
+    # X.690 8.3: two's complement, minimal number of octets
+    use(blen_upper(abs_(number + (1 if number < 0 else 0))))
+    use(blen_lower(abs_(number + (1 if number < 0 else 0))))
+    use(pow2_mono(blen(abs_(number + (1 if number < 0 else 0))),
+                  8 * ((8 + blen(abs_(number + (1 if number < 0 else 0)))) // 8) - 1))
+    use(pow2_mono(8 * ((8 + blen(abs_(number + (1 if number < 0 else 0)))) // 8) - 9,
+                  blen(abs_(number + (1 if number < 0 else 0))) - 1))
+    ensures(list(result) == be_bytes(number, len(result)))
+    ensures(tc_min_len(number, len(result)))
+
+
+@contract("encode_length_definite", props=["C03", "C15", "C01"])
+def _(length: Nat) -> ByteArray:
+    requires(length < 2 ** 1008)          # 126 length octets is the X.690 maximum (8.1.3.5)
+    use(blen_le(length, 1008))
+    ensures(is_der_length(list(result), length))
+    loop(0, invariant=[length >= 0, old(length) > 127,
+                       lv(list(encoded), length) == old(length),
+                       (length > 0 and blen(length) + 8 * len(encoded) == blen(old(length)))
+                       or (length == 0 and len(encoded) == (blen(old(length)) + 7) // 8)],
+         decreases=length,
+         use=[blen_small(length), blen_div256(length)],
+         use_step=[lv_snoc(list(at_head(encoded)), at_head(length))])
+    at_stmt("encoded.append(0x80 | len(encoded))",
+            use=[rev_snoc(list(encoded), 0x80 | len(encoded)), be_val_rev(list(encoded))])
+
+
+@contract("skip_tag_length_contents", props=["C15", "C07", "C08"])
+def _(data: Bytes, offset: Nat) -> Int:
+    raises_iff(MissingDataError, tlv_header_complete(data, offset) and not tlv_is_indefinite(data, offset)
+               and tlv_end(data, offset) > len(data),
+               ensures=[exc.offset + exc.expected_length == tlv_end(old(data), old(offset))])
+    raises_iff(OutOfByteDataError, not tlv_header_complete(data, offset))
+    raises_iff(DecodeError, tlv_header_complete(data, offset) and tlv_is_indefinite(data, offset))
+    ensures(result == tlv_end(data, offset) and result <= len(data) and result > offset)
+
+
+@contract("decode_full_length", props=["C15"])
+def _(data: Bytes):
+    # the length probe: total length once identifier and length octets are present, None before that,
+    # never another number, never an exception for definite lengths
+    raises_iff(DecodeError, tlv_header_complete(data, 0) and tlv_is_indefinite(data, 0))
+    ensures(implies(not tlv_header_complete(data, 0), result is None))
+    ensures(implies(tlv_header_complete(data, 0), result == tlv_end(data, 0)))
+
+
+@contract("read_tag", props=["C15", "C04"])
+def _(data: Bytes, offset: Nat) -> Bytes:
+    raises_iff(OutOfByteDataError, not tag_complete(data, offset) or tag_end(data, offset) >= len(data))
+    ensures(result == data[offset:tag_end(data, offset)])
+
+
+@contract("detect_end_of_contents_tag", props=["C04", "C08", "C16"])
+def _(data: Bytes, offset: Nat) -> Bool:
+    raises_iff(OutOfByteDataError, offset + 2 > len(data))
+    ensures(result == (data[offset] == 0 and data[offset + 1] == 0))
+
+
+@contract("is_end_of_data", props=["C04", "C08", "C16"])
+def _(data: Bytes, offset: Nat, end_offset: Opt(Int)) -> Tup(Bool, Int):
+    raises_iff(OutOfByteDataError, end_offset is None and offset + 2 > len(data))
+    ensures(implies(end_offset is not None, result == (offset >= end_offset, offset)))
+    ensures(implies(end_offset is None and data[offset] == 0 and data[offset + 1] == 0, result == (True, offset + 2)))
+    ensures(implies(end_offset is None and not (data[offset] == 0 and data[offset + 1] == 0), result == (False, offset)))
+
+
+@contract("encode_tag", props=["C03", "C01"])
+def _(number: Nat, flags: Union(Lit(0), Lit(32), Lit(64), Lit(96), Lit(128), Lit(160), Lit(192), Lit(224))) -> ByteArray:
+    ensures(list(result) == tag_octets(number, flags))
+    loop(0, invariant=[number >= 0, old(number) >= 31, list(encoded) + le128(number) == le128(old(number))],
+         decreases=number)
+    at_stmt("encoded.reverse()", use=[])
